@@ -127,7 +127,7 @@ def check(tier):
         ("stoichiometry-ignored", dict(module="bioscrape.sbmlutil", old="                    for i in range(int(reactant.getStoichiometry())):\n                        reactant_list.append(reactantspecies_id)\n                else:\n                    reactant_list.append(reactantspecies_id)\n            else:\n                warnings.warn('Reactant in reaction",
                                        new="                    for i in range(1):\n                        reactant_list.append(reactantspecies_id)\n                else:\n                    reactant_list.append(reactantspecies_id)\n            else:\n                warnings.warn('Reactant in reaction")),
         ("local-not-renamed", dict(module="bioscrape.sbmlutil", old="            if pid in allparams:\n                # If local parameter ID already exists", new="            if False:\n                # If local parameter ID already exists")),
-        ("amount-precedence", dict(module="bioscrape.sbmlutil", old="        if np.isfinite(s.getInitialConcentration()) and allspecies[sid] == 0:", new="        if np.isfinite(s.getInitialConcentration()):")),
+        ("concentration-ignored", dict(module="bioscrape.sbmlutil", old="        if np.isfinite(s.getInitialConcentration()) and allspecies[sid] == 0:", new="        if False:")),
     ]
     for name, m in mut:
         ck.add_mutant(name, m, "documents", "harness.C13", "import_job", dict(cases=cs[:40]))
